@@ -12,11 +12,16 @@ build() {
   cargo build --offline --profile "$1" --bin dvcheck >"$HERE/harness/target/build-$1.log" 2>&1
 }
 mkdir -p "$HERE/harness/target"
+# development aid: the build reads /repo's working tree; hold a shared lock on it meanwhile so that
+# tools/with_seed.sh (which applies a seeded patch to /repo under the exclusive lock, runs a check
+# and reverts) can never interleave with the build of another, concurrently running check
+if [ -z "${DVCHECK_REPO_LOCK_HELD:-}" ]; then exec 8>"${TMPDIR:-/tmp}/dvcheck-repo.lock"; flock -s 8; fi
 # serialise concurrent builds of different checks
 exec 9>"$HERE/harness/target/.build.lock"
 flock 9
 build release || { tail -30 "$HERE/harness/target/build-release.log"; echo "BUILD-FAILED profile=release"; exit 2; }
 build relchk  || { tail -30 "$HERE/harness/target/build-relchk.log";  echo "BUILD-FAILED profile=relchk";  exit 2; }
 flock -u 9
+if [ -z "${DVCHECK_REPO_LOCK_HELD:-}" ]; then flock -u 8; fi
 export DVCHECK_BINS="release=$HERE/harness/target/release/dvcheck,relchk=$HERE/harness/target/relchk/dvcheck"
 exec "$HERE/harness/target/release/dvcheck" run "$PROP" --tier "$TIER"
